@@ -118,6 +118,27 @@ def run(ctx, prop):
             if bad and ('released' in bad[0] or 'left-behind' in bad[0]):
                 ctx.fail('executor:' + bad[0], bad[1], {'script': None, 'choices': cs})
         common.compare(ctx, 'exec', eops, eimpl, what='executor half: unschedule publications of the real Popen executor per schedule')
+        # ... and for bulks: Popen.work on several tasks of which some cannot be launched - every task of the bulk is
+        # named in exactly one unschedule publication, the failed ones at once, the others after their process ended
+        bops, bimpl = [], []
+        bulks = [[(0, True, 0), (1, False, 0), (2, False, 3)], [(1, False, 0), (0, True, 0)]]
+        for _ in range(ctx.n(60, 1500)):
+            bulks.append([(u, rng.random() < 0.35, rng.choice([0, 0, 1])) for u in rng.sample(range(8), rng.randint(2, 5))])
+        for b in bulks:
+            evs = c07.run_bulk(rp, b)
+            bops.append({'op': 'bulk', 'tasks': [{'uid': u, 'fault': f, 'code': c} for u, f, c in b]}); bimpl.append(evs)
+            ctx.case(bops[-1], nontrivial=any(f for u, f, c in b))
+            bad = c07.bulk_monitor(b, evs)
+            if bad and 'released' in bad[0]:
+                ctx.fail('executor:' + bad[0], bad[1] + ' (bulk %s)' % b, {'script': None, 'bulk': [list(x) for x in b]}, observed=evs)
+            # a task still running must not have been released: nothing that happened while Popen.work handled the bulk
+            # (all launched processes still run then) may name a launched task in an unschedule publication
+            early = [u for u, f, c in b if not f and ['unsched', u] in [e[:2] for e in evs[:c07.run_bulk.intake_events]]]
+            if early:
+                ctx.fail('executor:bulk:launched-task-released-while-it-runs',
+                         'tasks %s of bulk %s are named in an unschedule publication while their processes run' % (early, b),
+                         {'script': None, 'bulk': [list(x) for x in b]}, observed=evs)
+        common.compare(ctx, 'exec', bops, bimpl, what='executor half: real Popen.work on bulks with unlaunchable tasks, unschedule publications per task')
         res, unsched = c08.run_intake(rp, [], [3], [3])
         if res['canceled'] and not all(t in unsched for t in res['canceled']):
             ctx.fail('cancel-at-executor-intake:resources-never-released',
@@ -161,6 +182,13 @@ def replay(ctx, data, prop):
             res, unsched = c08.run_intake(rp, i['cl'], i['uids'], i['things'])
             print(res, unsched)
             return all(t in unsched for t in res['canceled'])
+        if 'bulk' in data['input']:
+            b = [tuple(x) for x in data['input']['bulk']]
+            evs = c07.run_bulk(rp, b)
+            bad = c07.bulk_monitor(b, evs)
+            early = [u for u, f, c in b if not f and ['unsched', u] in [e[:2] for e in evs[:c07.run_bulk.intake_events]]]
+            print(evs, bad, 'released while running:', early)
+            return not (bad and 'released' in bad[0]) and not early
         obs, done, rec, quiet = c07.run_schedule(rp, data['input']['choices'])
         return c07.monitor(obs, rec, quiet, True) is None
     s, out, tasks, crash = schedlib.run_script(rp, sc)
